@@ -24,7 +24,7 @@ Stateful ops (after `reset`)
   addres <hex>                                           -> ok <id> <W> <T> | err <word> <W> <T>
   addchunk <dsize> <codec> <hex> <sec> <ter>             -> ok <W> <T> | err <word> <W> <T>
   cwclose                                                -> ok <W> <T> | err <word> <W> <T>
-  w <loc> <cpagesize> <temp> <failAt> <cchunk> <dchunk> <codec> <oob> <cancut> <nilwriter> <res,res,…|->  -> ok
+  w <loc> <cpagesize> <temp> <failAt> <cchunk> <dchunk> <codec> <oob> <cancut> <nilwriter> <res,res,…|none>  -> ok
   write <hex>                                            -> ok <n> <W> <T> | err <word> <W> <T>
   close                                                  -> ok <W> <T> | err <word> <W> <T>
   specself                                               -> like spec, on everything written to Writer so far
@@ -186,7 +186,7 @@ def step (s : St) (l : List String) : St × String :=
   | ["w", loc, cps, temp, failAt, cchunk, dchunk, codec, oob, cancut, nilw, res] =>
     match cps.toNat?, temp.toNat?, failAt.toNat?, cchunk.toNat?, dchunk.toNat?, codec.toNat? with
     | some cps, some temp, some failAt, some cchunk, some dchunk, some codec =>
-      let resources : Option (List Bytes) := if res == "-" then some [] else (res.splitOn ",").mapM fromHex
+      let resources : Option (List Bytes) := if res == "none" then some [] else (res.splitOn ",").mapM fromHex
       match resources with
       | some resources =>
         let v : HCodec.Variant := { codec := codec, oob := oob == "1", canCut := cancut == "1" }
